@@ -394,10 +394,10 @@ func rrefc(n string, c Card) *Term { return &Term{Kind: KRule, Name: n, Card: c}
 func errT() *Term            { return &Term{Kind: KErr} }
 
 func (g *gen) richParser() {
-	fams := []func(){g.famStatements, g.famLLish, g.famExpr, g.famNullableChain, g.famRandomSmall, g.famLists, g.famLLish, g.famStatements}
+	fams := []func(){g.famStatements, g.famLLish, g.famExpr, g.famNullableChain, g.famRandomSmall, g.famLists, g.famLLish, g.famStatements, g.famErrorInRepetition}
 	fams[g.pick(len(fams))]()
 	for _, r := range g.s.Rules {
-		r.Ret = g.pick(3)
+		r.Ret = g.pick(4)
 	}
 	if g.chance(70) {
 		g.sprinkleErrors()
@@ -434,6 +434,9 @@ func (g *gen) famStatements() {
 	// classic recovery points
 	if g.chance(60) {
 		stmt.Prods = append(stmt.Prods, &Prod{Terms: []*Term{errT(), semi}})
+	} else if g.chance(50) {
+		// a bare @error alternative inside a repetition
+		stmt.Prods = append(stmt.Prods, &Prod{Terms: []*Term{errT()}})
 	}
 	if g.chance(40) {
 		block.Prods = append(block.Prods, &Prod{Terms: []*Term{open, errT(), cls}})
@@ -657,6 +660,10 @@ func (g *gen) famLists() {
 	if g.chance(40) {
 		top.Prods = append(top.Prods, &Prod{Terms: []*Term{errT()}})
 	}
+	if g.chance(35) {
+		// a bare @error item inside lists and nesting
+		item.Prods = append(item.Prods, &Prod{Terms: []*Term{errT()}})
+	}
 	s.Rules = []*Rule{top, seq, item}
 }
 
@@ -785,4 +792,35 @@ func Shrink(s *Spec, seed uint64) *Spec {
 	}
 	c.Start = 0
 	return c
+}
+
+// famErrorInRepetition: a bare @error alternative in a rule that is repeated,
+// nested or shared between contexts, so that the state reached by shifting
+// ERROR has reduce actions on LALR-merged lookaheads.
+func (g *gen) famErrorInRepetition() {
+	s := g.s
+	s.Family = "error-in-repetition"
+	a, open, cls := g.tokN(0), g.tokN(1), g.tokN(2)
+	switch g.pick(3) {
+	case 0:
+		card := []Card{Star, Plus, StarF}[g.pick(3)]
+		item := &Rule{Name: "item", Prods: []*Prod{{Terms: []*Term{a}}, {Terms: []*Term{open, rref("items"), cls}}, {Terms: []*Term{errT()}}}}
+		items := &Rule{Name: "items", Prods: []*Prod{{Terms: []*Term{rrefc("item", card)}}}}
+		top := &Rule{Name: "top", Prods: []*Prod{{Terms: []*Term{rref("items")}}}}
+		s.Rules = []*Rule{top, items, item}
+	case 1:
+		// the same rule with a bare @error used in two contexts with different followers
+		v := &Rule{Name: "v", Prods: []*Prod{{Terms: []*Term{g.tokN(3)}}, {Terms: []*Term{errT()}}}}
+		top := &Rule{Name: "top", Prods: []*Prod{
+			{Terms: []*Term{a, rref("v"), cls}},
+			{Terms: []*Term{open, rref("v"), g.tokN(4)}}}}
+		s.Rules = []*Rule{top, v}
+	default:
+		item := &Rule{Name: "item", Prods: []*Prod{{Terms: []*Term{a}}, {Terms: []*Term{errT()}}}}
+		if g.chance(50) {
+			item.Prods = append(item.Prods, &Prod{Terms: []*Term{open, {Kind: KList, Elem: rref("item"), Sep: g.tokN(3), ListOpt: g.chance(50)}, cls}})
+		}
+		top := &Rule{Name: "top", Prods: []*Prod{{Terms: []*Term{{Kind: KList, Elem: rref("item"), Sep: g.tokN(3)}}}}}
+		s.Rules = []*Rule{top, item}
+	}
 }
